@@ -623,6 +623,57 @@ def r7_options_reach_param_study(ctx):
                   "(not validated, not applied)", construct=f"option {key}")
 
 
+def r12_table_refusals_look_at_documented_columns(ctx):
+    """'every design that satisfies the documented requirements runs to completion': a supplied visit table is required to have the columns
+    ID and TIME, with no missing age - what else it carries (scores, cofactors, with their own missing values) is ignored.  A refusal whose
+    test looks at the table as a whole refuses valid designs."""
+    ctx.rule("C18.R12", "table-driven design: every refusal reads the visit table through its ID / TIME columns (or its column names) only", 2)
+    f = ctx.ix.func(SIM, f"{CLS}._validate_algo_parameters", "C18.R12")
+    ctx.analysed(f)
+    cfg = CFG(f.node)
+    inl = Inliner(f.node)
+    tables = {st.targets[0].id for st in statements(f.node) if isinstance(st, ast.Assign) and len(st.targets) == 1 and isinstance(st.targets[0], ast.Name)
+              and "df_visits" in U(st.value)}
+    if not tables:
+        ctx.unknown("C18.R12", f, f.node, "the visit table is no longer bound to a local name in the validation", construct="refusals about the visit table")
+        return
+
+    def whole_table_uses(test):
+        """uses of the table in `test` that are not `df.columns`, `df['ID']`, `df['TIME']`, `df[['ID', 'TIME']]` or `isinstance(df, ...)`"""
+        bad = []
+        parents = {}
+        for n in ast.walk(test):
+            for c in ast.iter_child_nodes(n):
+                parents[c] = n
+        for n in ast.walk(test):
+            if isinstance(n, ast.Name) and n.id in tables:
+                p_ = parents.get(n)
+                if isinstance(p_, ast.Attribute) and p_.attr in ("columns",):
+                    continue
+                if isinstance(p_, ast.Subscript) and p_.value is n:
+                    sl = p_.slice
+                    keys = [sl] if isinstance(sl, ast.Constant) else (list(sl.elts) if isinstance(sl, (ast.List, ast.Tuple)) else None)
+                    if keys is not None and all(isinstance(k_, ast.Constant) and k_.value in ("ID", "TIME") for k_ in keys):
+                        continue
+                if isinstance(p_, ast.Call) and U(p_.func) == "isinstance" and p_.args and p_.args[0] is n:
+                    continue
+                bad.append(U(p_)[:60] if p_ is not None else n.id)
+        return bad
+    n_ref = 0
+    for r in cfg.nodes(lambda s_: isinstance(s_, ast.Raise)):
+        for h, lab in cfg.if_guards(r):
+            test = inl.resolve(cfg.stmt[h].test) if isinstance(cfg.stmt[h].test, ast.Name) else cfg.stmt[h].test
+            if not any(isinstance(n, ast.Name) and n.id in tables for n in ast.walk(test)):
+                continue
+            n_ref += 1
+            bad = whole_table_uses(test)
+            ctx.check(not bad, "C18.R12", f, cfg.stmt[h], f"refusal `{U(test)[:60]}` reads the ID / TIME columns only",
+                      f"the refusal `{U(test)[:70]}` looks at the whole table (`{bad[0] if bad else ''}`): a table with the required ID and TIME columns and, say, a missing value in another "
+                      "column is refused although it is a valid design", construct=f"refusal on {U(test)[:50]}")
+    if not n_ref:
+        ctx.unknown("C18.R12", f, f.node, "no refusal about the visit table found in the validation", construct="refusals about the visit table")
+
+
 def rules(ctx):
     r1_validate_before_use(ctx)
     r2_none_use(ctx)
@@ -635,6 +686,7 @@ def rules(ctx):
     r8_table_ages_keyed_by_their_own_id(ctx)
     r10_no_division_by_a_design_parameter(ctx)
     r11_sources_standardised_per_source(ctx)
+    r12_table_refusals_look_at_documented_columns(ctx)
     # whether a design is accepted depends on the design alone: the tables of requirements / defaults of the class are never written
     # (same rule as C13.R5, restricted to the simulation package)
     from .c13 import r5_shared_defaults
